@@ -89,6 +89,9 @@ type Op struct {
 	ConsistentFalse bool `json:"consistentfalse,omitempty"`
 	// RetVal: the raw ReturnValues of PutItem / DeleteItem ("UPDATED_OLD", "ALL_NEW" ...: values only UpdateItem knows)
 	RetVal string `json:"retval,omitempty"`
+	// RetCap: ReturnConsumedCapacity of the request ("TOTAL", "INDEXES", "NONE"): bookkeeping the caller asks for,
+	// it changes neither what the request does nor whether it succeeds
+	RetCap string `json:"retcap,omitempty"`
 	// Expected: the legacy "Expected" parameter of a write in its short form (attribute = value)
 	Expected val.Item `json:"expected,omitempty"`
 	// Paginate: walk the whole result with the SDK's own paginator (SDK v2: NewQueryPaginator / NewScanPaginator;
